@@ -2,10 +2,15 @@
   Lemmas.CompressSimple — the table half of the contract always holds for the
   simple executable choice function (`Model.Compress.simpleChoice`: two copies
   of the dummy table of `generate_prefix_code`, all selectors 0), for every
-  non-empty block; what remains of `ChoicesOK` is `BwtOK` of the naive BWT.
+  non-empty block; what remains of `ChoicesOK` is `BwtOK` of the naive BWT,
+  which holds for every non-empty block as well (`Lemmas.BwtInverse.naiveBwt_ok`,
+  the LF-mapping argument): `simpleChoice_ok`, `simpleChoice_ok_rle` — the
+  contract is satisfiable for every block.
 -/
 import LbzVerif.Model.Compress
 import LbzVerif.Lemmas.CompressMtf
+import LbzVerif.Lemmas.BwtInverseNaive
+import LbzVerif.Lemmas.Rle1Dec
 import LbzVerif.Props.C02
 
 namespace LbzVerif.Lemmas.CompressSimple
@@ -36,5 +41,24 @@ theorem simpleChoice_tablesOK (rb : List UInt8) (hne : rb ≠ []) :
 theorem simpleChoice_ok_iff (rb : List UInt8) (hne : rb ≠ []) :
     ChoicesOK rb (simpleChoice rb) ↔ BwtOK rb (naiveBwt rb).1 (naiveBwt rb).2 :=
   ⟨fun h => h.1, fun h => ⟨h, simpleChoice_tablesOK rb hne⟩⟩
+
+/-- **The contract holds for the simple choice function on every non-empty
+    block** (no evaluation involved). -/
+theorem simpleChoice_ok (rb : List UInt8) (hne : rb ≠ []) : ChoicesOK rb (simpleChoice rb) :=
+  (simpleChoice_ok_iff rb hne).mpr (Lemmas.BwtInverse.naiveBwt_ok rb hne)
+
+theorem rle1_ne (b : List UInt8) (hne : b ≠ []) : Spec.rle1 b ≠ [] := by
+  intro he
+  have := Spec.unRle1_rle1 b
+  rw [he] at this
+  have h0 : Spec.unRle1 [] = some [] := by decide
+  rw [h0] at this
+  exact hne (Option.some.inj this).symm
+
+/-- … in the form the file theorems ask for: on the run-length encoding of a
+    non-empty piece of input -/
+theorem simpleChoice_ok_rle (b : List UInt8) (hne : b ≠ []) :
+    ChoicesOK (Spec.rle1 b) (simpleChoice (Spec.rle1 b)) :=
+  simpleChoice_ok _ (rle1_ne b hne)
 
 end LbzVerif.Lemmas.CompressSimple
